@@ -9,6 +9,7 @@ import QuiverModel.Lemmas.Packaging.Mark
 import QuiverModel.Lemmas.Packaging.Reach
 import QuiverModel.Core.Packaging.Merge
 import QuiverModel.Lemmas.Packaging.MergeImport
+import QuiverModel.Lemmas.Packaging.MergeFrame
 /-
 C10 — packaging steps preserve behaviour (property theorems).
 
@@ -818,5 +819,13 @@ theorem merge_isRenaming_types_tuples {env src : Prog} {e : Nat} {out : MergeOut
     (∀ t, t < src.types.size → ∃ t', out.ren.type.get t = some t') ∧
     (∀ u, u < src.tuples.size → ∃ u', out.ren.tuple.get u = some u') :=
   merge_types_tuples h hk
+
+/-- **Merging never disturbs what is already loaded.** Every constant, function, tuple, type and builtin index
+    of the environment's program denotes the same entry after `merge_bytecode` (all five tables only grow at the
+    end) — for every environment, incoming program and entry, without hypothesis. Hence a process that is
+    running code of an earlier program keeps running the same code after any later merge. -/
+theorem merge_never_disturbs_loaded_programs {env src : Prog} {e : Nat} {out : MergeOut}
+    (h : mergeBytecode env src e = some out) : ProgLe5 env out.prog :=
+  merge_extends_env h
 
 end C10
